@@ -4,33 +4,33 @@
 (* (start,count,stride) request (model of ncmpio_filetype.c, Access.v) are exactly the row-major *)
 (* enumeration of the addressed elements (spec), for every dimensionality, shape and accepted request; *)
 (* distinct elements occupy distinct bytes; the imap/segment enumeration has no duplicates. *)
+From Coq Require Import ZArith List.
 From Pnc Require Import Proofs_Access.
 Set Printing Width 100.
+Set Printing Depth 100000.
 
 Theorem C01_segments_correct :
-  forall (g : Access.geom) (start count stride : list BinNums.Z),
+  forall (g : Access.geom) (start count stride : list Z),
          wf_geom g ->
          req_ok (Access.g_shape g) start count stride ->
          Access.model_offsets g start count (Some stride) =
-         (if BinInt.Z.eqb (Base.zprod count) BinNums.Z0
-          then nil
-          else Access.spec_offsets g start count stride).
+         (if (Base.zprod count =? 0)%Z then nil else Access.spec_offsets g start count stride).
 Proof. exact @model_offsets_spec. Qed.
 Print Assumptions C01_segments_correct.
 
 Theorem C01_segments_correct_null_stride :
-  forall (g : Access.geom) (start count : list BinNums.Z),
+  forall (g : Access.geom) (start count : list Z),
          wf_geom g ->
          req_ok (Access.g_shape g) start count (Access.ones (length (Access.g_shape g))) ->
          Access.model_offsets g start count None =
-         (if BinInt.Z.eqb (Base.zprod count) BinNums.Z0
+         (if (Base.zprod count =? 0)%Z
           then nil
           else Access.spec_offsets g start count (Access.ones (length (Access.g_shape g)))).
 Proof. exact @model_offsets_spec_none. Qed.
 Print Assumptions C01_segments_correct_null_stride.
 
 Theorem C01_vara_segments_correct :
-  forall (g : Access.geom) (start count : list BinNums.Z),
+  forall (g : Access.geom) (start count : list Z),
          rec_packed g ->
          req_ok (Access.g_shape g) start count (Access.ones (length (Access.g_shape g))) ->
          Access.vara_offsets g start count =
@@ -39,8 +39,8 @@ Proof. exact @vara_offsets_spec_min. Qed.
 Print Assumptions C01_vara_segments_correct.
 
 Theorem C01_accepted_request_offsets :
-  forall (fmt : BinNums.Z) (strict isread : bool) (kind : Access.apikind) 
-           (g : Access.geom) (numrecs : BinNums.Z) (st cn stride : list BinNums.Z),
+  forall (fmt : Z) (strict isread : bool) (kind : Access.apikind) 
+           (g : Access.geom) (numrecs : Z) (st cn stride : list Z),
          wf_geom g ->
          length st = length (Access.g_shape g) ->
          length cn = length (Access.g_shape g) ->
@@ -52,32 +52,31 @@ Proof. exact @accepted_request_offsets. Qed.
 Print Assumptions C01_accepted_request_offsets.
 
 Theorem C01_elem_off_injective :
-  forall (g : Access.geom) (i j : list BinNums.Z),
+  forall (g : Access.geom) (i j : list Z),
          wf_geom g ->
          rec_fits g -> idx_ok g i -> idx_ok g j -> Access.elem_off g i = Access.elem_off g j -> i = j.
 Proof. exact @elem_off_inj. Qed.
 Print Assumptions C01_elem_off_injective.
 
 Theorem C01_offsets_nodup :
-  forall (g : Access.geom) (start count stride : list BinNums.Z),
+  forall (g : Access.geom) (start count stride : list Z),
          wf_geom g ->
          rec_fits g ->
          req_ok (Access.g_shape g) start count stride ->
-         List.NoDup (Access.model_offsets g start count (Some stride)).
+         NoDup (Access.model_offsets g start count (Some stride)).
 Proof. exact @model_offsets_NoDup. Qed.
 Print Assumptions C01_offsets_nodup.
 
 Theorem C01_offsets_length :
-  forall (g : Access.geom) (start count stride : list BinNums.Z),
+  forall (g : Access.geom) (start count stride : list Z),
          wf_geom g ->
          req_ok (Access.g_shape g) start count stride ->
-         length (Access.model_offsets g start count (Some stride)) =
-         BinInt.Z.to_nat (Base.zprod count).
+         length (Access.model_offsets g start count (Some stride)) = Z.to_nat (Base.zprod count).
 Proof. exact @model_offsets_length. Qed.
 Print Assumptions C01_offsets_length.
 
 Theorem C01_old_stride_flatten_refuted :
-  exists (g : Access.geom) (start count stride : list BinNums.Z),
+  exists (g : Access.geom) (start count stride : list Z),
            wf_geom g /\
            req_ok (Access.g_shape g) start count stride /\
            model_offsets_old g start count (Some stride) <> Access.spec_offsets g start count stride.
